@@ -135,6 +135,16 @@ func (g *gen) docVal(p int) DocVal {
 			d = -d // negative
 		case 1:
 			d += 250 * int64(time.Millisecond) // fractional seconds when written as a string
+		case 2:
+			// beyond 2^53 ns (about 104 days): exact as an int64, not as a float64
+			switch g.r.IntN(6) {
+			case 0:
+				d = 1<<63 - 1
+			case 1:
+				d = -(1<<63 - 1)
+			default:
+				d = 1<<53 + 1 + 2*int64(n) + int64(g.r.IntN(1<<20))*1e9
+			}
 		}
 		v.WaitNS = i64p(d)
 		v.WaitAsInt = g.pct(40)
